@@ -101,3 +101,11 @@ Definition run_rcase (c : rcase) : outcome cst :=
 Definition check_rcase (c : rcase) : bool := rout_eqb (run_rcase c) (r_exp c).
 Fixpoint rbad_indices (i : nat) (l : list rcase) : list nat :=
   match l with [] => [] | x :: r => if check_rcase x then rbad_indices (S i) r else i :: rbad_indices (S i) r end.
+
+(* cases grouped by the harness (old span, tables, old variables and new span bound once per group): indices of the groups
+   containing a disagreement *)
+Fixpoint rgbad_indices (i : nat) (l : list (list rcase)) : list nat :=
+  match l with
+  | [] => []
+  | g :: r => match rbad_indices 0%nat g with [] => rgbad_indices (S i) r | _ :: _ => i :: rgbad_indices (S i) r end
+  end.
